@@ -198,7 +198,9 @@ fn impulses<T: Flt>(acc: &mut Acc, tier: Tier, len: usize, window: WindowFunctio
     let starts: Vec<usize> = if q { vec![0, 1, 8] } else { (0..=8).collect() };
     let misaligns: Vec<usize> = if q { vec![0, 1, 3, 7] } else { (0..8).collect() };
     let eps = if T::IS_F32 { f32::EPSILON as f64 } else { f64::EPSILON };
-    let cutoffs: Vec<f32> = if q { vec![0.93] } else { vec![0.93, 0.41] };
+    // 1.08: a cutoff above the Nyquist frequency is accepted by every constructor (the dispatching
+    // resamplers reach it with f_cutoff * ratio > 1 too) and must give the same table everywhere
+    let cutoffs: Vec<f32> = if q { vec![0.93, 1.08] } else { vec![0.93, 0.41, 1.08, 1.5, 0.02] };
     for (&os, &f_cutoff) in overs.iter().flat_map(|o| cutoffs.iter().map(move |c| (o, c))) {
         let scalar = ScalarInterpolator::<T>::new(len, os, f_cutoff, window);
         let sse = SseInterpolator::<T>::new(len, os, f_cutoff, window).map_err(|e| format!("SSE kernel unavailable: {}", e))?;
